@@ -278,6 +278,9 @@ _PURE = {'len': len, 'int': int, 'float': float, 'str': str, 'bool': bool, 'abs'
          'isinstance': None, 'type': None, 'set': set, 'frozenset': frozenset, 'tuple': tuple,
          'list': list, 'min': min, 'max': max, 'bin': bin, 'oct': oct, 'hex': hex, 'chr': chr, 'ord': ord, 'divmod': divmod,
          'pow': pow, 'dict': dict, 'repr': repr, 'hash': hash, 'format': format, 'callable': callable}
+import operator as _op
+_INPLACE = {ast.Add: _op.iadd, ast.Sub: _op.isub, ast.Mult: _op.imul, ast.Div: _op.itruediv, ast.FloorDiv: _op.ifloordiv, ast.Mod: _op.imod,
+            ast.Pow: _op.ipow, ast.LShift: _op.ilshift, ast.RShift: _op.irshift, ast.BitAnd: _op.iand, ast.BitOr: _op.ior, ast.BitXor: _op.ixor}
 _STR_METHODS = {'startswith', 'endswith', 'find', 'upper', 'lower', 'strip', 'title',
                 'index', 'count', 'zfill', 'is_integer', 'replace', 'partition', 'rpartition',
                 'split', 'rsplit', 'removeprefix', 'removesuffix', 'lstrip', 'rstrip', 'join',
@@ -424,7 +427,15 @@ class Interp:
             elif isinstance(cur, Rec) or isinstance(val, Rec):
                 self.store(s.target, self._binop(s.op, cur, val))
             else:
-                self.store(s.target, _BIN[type(s.op)](cur, val))
+                # the in-place protocol: a list / set / dict target is changed itself (every alias sees it), immutables are rebound
+                try:
+                    self.store(s.target, _INPLACE[type(s.op)](cur, val))
+                except ZeroDivisionError:
+                    raise ExcRaised(Ref('builtin:ZeroDivisionError'))
+                except OverflowError:
+                    raise ExcRaised(Ref('builtin:OverflowError'))
+                except TypeError:
+                    raise ExcRaised(Ref('builtin:TypeError'))
         elif isinstance(s, ast.If):
             if self.truth(self.ev(s.test)):
                 self.block(s.body)
@@ -1980,6 +1991,11 @@ class Interp:
                 return res
         if isinstance(l, (Opaque, Ref, Rec)) or isinstance(r, (Opaque, Ref, Rec)):
             return Opaque('binop')
+        if isinstance(op, ast.Pow) and isinstance(l, int) and isinstance(r, int) and not isinstance(l, bool) and abs(l) > 1 and r > 4096:
+            if r * max(1, abs(l).bit_length()) > 4000000:
+                raise Unmodelled('integer power with more than four million bits (the analysed code would not finish either)')
+        if isinstance(op, ast.LShift) and isinstance(r, int) and r > 4000000:
+            raise Unmodelled('shift by more than four million bits')
         try:
             return _BIN[type(op)](l, r)
         except ZeroDivisionError:
